@@ -28,7 +28,10 @@ RULE = (
     "parameter values (rv.gen.siblings), so that DIFFERENT gates coincide in name, parameter tuple, text, == / hash "
     "(c-RX(t) / c-RY(t) / cc-RX(t) / c-RX(t)-dagger, X.controlled / Z.controlled, RX(1) / RX(1.0), same-name symbols "
     "with other assumptions, two custom definitions of one name, one gate object on several operations), run through "
-    "the circuit / two-step / chained flows; rebind = history class: the same circuit / operation / gate bound "
+    "the circuit / two-step / chained flows; chained maps: swap, cycle, chain, self-reference, mutual expressions and "
+    "feed (one key goes to an expression that mentions another key, that key to something closed), keys drawn "
+    "preferably from the symbols of compound expression parameters (the circuit is given one when it has none), "
+    "both name orders; rebind = history class: the same circuit / operation / gate bound "
     "repeatedly (other values under the same keys, the first map again, equal values of another numeric type, one "
     "dict changed in place between calls), its gate objects shared with a second circuit, the circuit extended by a "
     "sibling, an operation with a symbol of its own appended to the list that circuit.operations handed out; "
@@ -1023,13 +1026,29 @@ def rand_map(rng, used, kind=None, fresh=None, values=None):
     return m, kind
 
 
-def chained_map(rng, used):
-    """values mention other keys: swaps, shifts, chains"""
+def chained_map(rng, used, prefer=()):
+    """values mention other keys: swaps, shifts, chains, feeds.  ``prefer``: symbols that occur inside compound
+    (non-atomic) expression parameters - substitution by lookup cannot go wrong on a bare symbol, so the keys are
+    drawn from these first"""
     used = sorted(used, key=_skey)
     if len(used) < 2:
         used = used + [sympy.Symbol("aux_k")]
     ks = rng.sample(used, rng.randint(2, min(3, len(used))))
-    style = rng.choice(["swap", "cycle", "chain", "self", "expr"])
+    pref = [x for x in sorted(prefer, key=_skey) if x in used]
+    if pref and rng.random() < 0.8:
+        first = rng.choice(pref)
+        ks = [first] + [k for k in ks if k != first][:max(1, len(ks) - 1)]
+    style = rng.choice(["swap", "cycle", "chain", "self", "expr", "feed", "feed"])
+    if style == "feed":
+        # the value of one key is an EXPRESSION that mentions another key of the map (not the bare key itself), the
+        # other key goes to something closed; which of the two sorts first varies (sympy orders a sequential
+        # substitution by the keys' names)
+        a, b = ks[0], ks[1]
+        va = rng.choice([2 * b, b + 1, b ** 2, sympy.sin(b), b / 3 - 1, a + b, a * b])
+        vb = rng.choice([1.0, 2, sympy.Rational(1, 3), sympy.Symbol("u"), sympy.Symbol("u") + 1, 0.5])
+        items = [(a, va), (b, vb)]
+        rng.shuffle(items)
+        return dict(items), style
     if style == "swap":
         m = {ks[0]: ks[1], ks[1]: ks[0]}
     elif style == "cycle":
@@ -1644,7 +1663,21 @@ def _run_flow(ctx, cls):
                 check_circuit_unitary(ctx, c, m, b)
             return
         if cls == "chained":
-            m, style = chained_map(rng, used or set(symbols))
+            compound = [p for p in params if isinstance(p, sympy.Expr) and not p.is_Atom and _atoms(p)]
+            if not compound or rng.random() < 0.4:
+                # make sure the circuit holds a compound expression over two symbols: a bare-symbol parameter is
+                # substituted by lookup, only an expression goes through sympy's substitution
+                from orquestra.quantum.circuits import RZ, Circuit
+
+                pool = sorted(used, key=_skey) or list(symbols[:2])
+                s1 = rng.choice(pool)
+                s2 = rng.choice([x for x in pool if x != s1] or [sympy.Symbol("aux_k")])
+                e = rng.choice([s1 + s2, s1 * s2, 2 * s1 - s2 / 3, s1 + 0.25, sympy.sin(s1) + s2, s1 ** 2, s1 - s2])
+                c = Circuit(list(c.operations) + [RZ(e)(rng.randrange(max(1, c.n_qubits)))], n_qubits=max(1, c.n_qubits))
+                used |= {s1, s2}
+                params.append(e)
+                compound.append(e)
+            m, style = chained_map(rng, used or set(symbols), prefer=set().union(*[_atoms(p) for p in compound]))
             _describe(ctx, f"{tag}chained[{style}]: {describe_circuit(c)} bind {describe_map(m)}", True)
             ctx.tag("chained")
             b = _bind(c, m)
